@@ -53,7 +53,8 @@ func runC10(c *Ctx) {
 	refusal := `^select\{send:call:invoke:wamp\.Peer\.Send\[%sess\.Peer\]\(\)<-new\(wamp\.Error\);default\}$`
 	c.Guard(r3, az, "refusal ERROR", refusal, 1,
 		clause("not authorized", F(`^`+authz+`#0$`)),
-		clause("not an unacknowledged PUBLISH", F(`^%msg\.\(\*wamp\.Publish\),ok#1$`), T(`^%msg\.\(\*wamp\.Publish\),ok#0\.Options\["acknowledge"\]\.\(bool\),ok#0$`)))
+		clause("not an unacknowledged PUBLISH", F(`^%msg\.\(\*wamp\.Publish\),ok#1$`), T(`^%msg\.\(\*wamp\.Publish\),ok#0\.Options\["acknowledge"\]\.\(bool\),ok#0$`),
+			T(`^%msg\.\(\*wamp\.(Call|Cancel|Error|Goodbye|Register|Subscribe|Unregister|Unsubscribe|Yield)\),ok#1$`))) // another concrete type matched: not a PUBLISH, in whatever order the arms are tested
 	denied := clause("Authorizer refused", F(`^`+authz+`#0$`))
 	c.Reach(r3, az, "every refusal other than an unacknowledged PUBLISH is answered", ReachSpec{FromEdge: &denied, Stop: refusal,
 		Cut: []ir.Clause{clause("unacknowledged", F(`^%msg\.\(\*wamp\.Publish\),ok#0\.Options\["acknowledge"\]\.\(bool\),ok#0$`))}, Target: "EXIT", Want: false})
